@@ -11,7 +11,10 @@ package main
 // must open). c03.session: ONE transport (one loopback connection) reading a sequence of conformant server
 // packets — the property is per packet, whatever the transport read before: a server sends a message
 // again while it is unacknowledged (the same packet twice in a row, again later), and may seal the same
-// msg_id anew (another padding, another body in a container re-send). c03.par: several clients of one process sealing and opening at the same time, every packet
+// msg_id anew (another padding, another body in a container re-send); the peer writes every frame in 1..k pieces
+// (cuts inside the length prefix, inside the packet, one byte at a time, 4 KB / 64 KB packets) with a short pause
+// after each piece, and 4-byte transport error-code frames come before, between and after the packets: every
+// conformant packet must still open, however it arrived and whatever frame the transport read before. c03.par: several clients of one process sealing and opening at the same time, every packet
 // judged by the same server (calls must not disturb one another: the property is per call).
 
 import (
@@ -20,6 +23,9 @@ import (
 	"encoding/binary"
 	"fmt"
 	"io"
+	"net"
+	"sort"
+	"strconv"
 	"strings"
 	"sync"
 	"time"
@@ -173,17 +179,42 @@ func c03Exec1(op []string) string {
 //   c03.session <key> <step> <step> …     step = e:<salt>:<sid>:<msg_id>:<seq_no>:<padding>:<body>   (sealed by the
 //                                                 specification's server, direction 8, under <key>)
 //                                              | u:<msg_id>:<body>                                  (unencrypted)
+//                                              | c:<code>          (the 4-byte frame of a signed transport error code)
+//                                         each optionally prefixed by <cuts>/ — "each" or comma-separated offsets at
+//                                         which the peer cuts the frame (length prefix + packet) into separate writes
 // One transport for the whole line; the peer writes a packet only when the client is about to read it.
 // The results of the steps are joined with " ; "; each step is judged as a c03.route / c03.uroute of its own.
 
 type c03Step struct {
 	enc  bool
+	code bool // a 4-byte transport error-code frame (m.Mid unused)
+	cval int32
 	m    envMsg
 	pad  []byte
 	good bool
+	// how the peer writes the frame (length prefix + packet): in one piece, one byte at a time, or cut at these
+	// offsets of the frame, a short pause after every piece
+	each bool
+	cuts []int
 }
 
+// c03ParseStep: [<cuts>/]<step>; cuts = "each" or a comma-separated list of offsets.
 func c03ParseStep(t string) (st c03Step) {
+	if i := strings.Index(t, "/"); i >= 0 {
+		cs := t[:i]
+		t = t[i+1:]
+		if cs == "each" {
+			st.each = true
+		} else {
+			for _, c := range strings.Split(cs, ",") {
+				v, err := strconv.ParseUint(c, 10, 31)
+				if err != nil {
+					return c03Step{}
+				}
+				st.cuts = append(st.cuts, int(v))
+			}
+		}
+	}
 	p := strings.Split(t, ":")
 	switch {
 	case len(p) >= 7 && p[0] == "e":
@@ -193,15 +224,40 @@ func c03ParseStep(t string) (st c03Step) {
 	case len(p) >= 3 && p[0] == "u":
 		st.good = true
 		st.m = envMsg{Mid: envU64(p[1]), Body: envTok(strings.Join(p[2:], ":"))}
+	case len(p) == 2 && p[0] == "c":
+		v, err := strconv.ParseInt(p[1], 10, 32)
+		if err != nil {
+			return c03Step{}
+		}
+		st.code, st.good, st.cval = true, true, int32(v)
 	}
 	return st
 }
 
 func c03StepPacket(key []byte, st c03Step) []byte {
-	if st.enc {
+	switch {
+	case st.code:
+		b := make([]byte, 4)
+		binary.LittleEndian.PutUint32(b, uint32(st.cval))
+		return b
+	case st.enc:
 		return envSeal(8, key, st.m, st.pad)
 	}
 	return c03SpecUnenc(st.m.Mid, st.m.Body)
+}
+
+// c03Pieces: the frame as the peer writes it.
+func c03Pieces(frame []byte, st c03Step) [][]byte {
+	if st.each {
+		cuts := make([]int, 0, len(frame))
+		for i := 1; i < len(frame); i++ {
+			cuts = append(cuts, i)
+		}
+		return splitAt(frame, cuts)
+	}
+	cuts := append([]int{}, st.cuts...)
+	sort.Ints(cuts)
+	return splitAt(frame, cuts)
 }
 
 // c03Routed prints what ReadMsg returned (as x_envelope.go's envRoute does for its single packet); alive:
@@ -219,6 +275,11 @@ func c03Routed(msg messages.Common, err error) (res string, alive bool) {
 			e := strings.ToLower(s)
 			broken := strings.Contains(e, "eof") || strings.Contains(e, "closed") || strings.Contains(e, "timeout") || strings.Contains(e, "reset")
 			return "err:transport(" + strings.ReplaceAll(s, " ", "_") + ")", !broken
+		}
+		if strings.HasPrefix(s, "reading message") {
+			// the framing layer gave up on the frame (not a refusal of a packet it delivered): what follows on
+			// this connection is no longer read at frame boundaries
+			return "err:transport(" + strings.ReplaceAll(s, " ", "_") + ")", false
 		}
 		if strings.Contains(s, "Wrong bits of message_id") || strings.Contains(s, "not equal defined size") {
 			return envUnencErr(err), true
@@ -243,7 +304,7 @@ func c03Session(key []byte, steps []string) string {
 		}
 		sts = append(sts, st)
 	}
-	next := make(chan []byte)
+	next := make(chan [][]byte)
 	done := make(chan struct{})
 	go func() {
 		defer close(done)
@@ -255,10 +316,20 @@ func c03Session(key []byte, steps []string) string {
 		}
 		ann := make([]byte, 4)
 		_, _ = io.ReadFull(conn, ann)
-		for pkt := range next {
-			frame := make([]byte, 4, 4+len(pkt))
-			binary.LittleEndian.PutUint32(frame, uint32(len(pkt)))
-			_, _ = conn.Write(append(frame, pkt...))
+		if tc, ok := conn.(*net.TCPConn); ok {
+			_ = tc.SetNoDelay(true)
+		}
+		for pieces := range next {
+			pause := 400 * time.Microsecond
+			if len(pieces) > 24 {
+				pause = 120 * time.Microsecond
+			}
+			for i, p := range pieces {
+				if i > 0 {
+					time.Sleep(pause)
+				}
+				_, _ = conn.Write(p)
+			}
 		}
 		_ = conn.Close()
 	}()
@@ -280,7 +351,10 @@ func c03Session(key []byte, steps []string) string {
 			outs = append(outs, "err:transport(dead)")
 			continue
 		}
-		next <- c03StepPacket(key, st)
+		pkt := c03StepPacket(key, st)
+		frame := make([]byte, 4, 4+len(pkt))
+		binary.LittleEndian.PutUint32(frame, uint32(len(pkt)))
+		next <- c03Pieces(append(frame, pkt...), st)
 		var res string
 		func() {
 			defer func() {
@@ -515,6 +589,15 @@ func c03Judge(op []string, out string) string {
 		}
 		for i, t := range op[2:] {
 			st := c03ParseStep(t)
+			if st.code {
+				// not a packet: the frame of a transport error code. It must come out as that code (else the
+				// sequence is not the one meant) and, above all, must not matter to the packets after it
+				if want := fmt.Sprintf("code:%d", st.cval); outs[i] != want {
+					return fmt.Sprintf("frame %d of %d read by ONE transport (%s): a 4-byte frame carrying the transport error code %d came out of transport.ReadMsg as %s",
+						i+1, len(outs), c03History(op[2:], i), st.cval, clip(outs[i]))
+				}
+				continue
+			}
 			conformant := st.m.Mid%4 == 1 || st.m.Mid%4 == 3
 			if st.enc && len(st.pad) >= 16 {
 				continue
@@ -588,24 +671,58 @@ func c03Judge(op []string, out string) string {
 	return ""
 }
 
-// c03History says how step i relates to the packets read before it on the same transport.
+// c03History says how step i relates to what the transport read before it, and how the peer wrote it.
 func c03History(steps []string, i int) string {
 	cur := c03ParseStep(steps[i])
+	how := "written by the peer in one piece"
+	if cur.each {
+		how = "written by the peer one byte at a time"
+	} else if len(cur.cuts) > 0 {
+		n := 4 + len(c03StepPacket(make([]byte, 256), cur))
+		how = fmt.Sprintf("its %d-byte frame written by the peer in %d pieces, cut at %v, a short pause between them", n, len(c03Pieces(make([]byte, n), cur)), cur.cuts)
+	}
+	codes, broken := 0, 0
+	for j := 0; j < i; j++ {
+		p := c03ParseStep(steps[j])
+		if p.code {
+			codes++
+		}
+		if p.each || len(p.cuts) > 0 {
+			broken++
+		}
+	}
+	if codes > 0 {
+		how += fmt.Sprintf("; %d transport error-code frame(s) among the %d frames before it", codes, i)
+	}
+	if broken > 0 {
+		how += fmt.Sprintf("; %d of the frames before it written in pieces", broken)
+	}
+	if cur.code {
+		return how
+	}
 	for j := i - 1; j >= 0; j-- {
 		p := c03ParseStep(steps[j])
-		if p.m.Mid != cur.m.Mid {
+		if p.code || p.m.Mid != cur.m.Mid {
 			continue
 		}
 		what := "the same msg_id, sealed anew,"
-		if steps[j] == steps[i] {
+		if c03Bare(steps[j]) == c03Bare(steps[i]) {
 			what = "the same packet"
 		}
 		if j == i-1 {
-			return what + " as the packet read just before"
+			return what + " as the packet read just before; " + how
 		}
-		return fmt.Sprintf("%s as packet %d, %d other packets in between", what, j+1, i-1-j)
+		return fmt.Sprintf("%s as packet %d, %d other packets in between; %s", what, j+1, i-1-j, how)
 	}
-	return "a msg_id not seen before on this transport"
+	return "a msg_id not seen before on this transport; " + how
+}
+
+// c03Bare: the step without its segmentation.
+func c03Bare(t string) string {
+	if i := strings.Index(t, "/"); i >= 0 {
+		return t[i+1:]
+	}
+	return t
 }
 
 // ---- generation -----------------------------------------------------------------------------------
@@ -739,6 +856,12 @@ func c03Gen(g *G) {
 	// times), the same msg_id sealed anew (other padding / body / seq_no / salt), new messages in between,
 	// encrypted and unencrypted mixed; short fixed shapes first, then random walks
 	c03GenSessions(g)
+	// (b2'') the same transport object, the stream as a network delivers it and as a server fills it: every
+	// frame written by the peer in 1..k pieces (cuts inside the length prefix, between prefix and packet, inside
+	// key id / msg_key / ciphertext, before the last byte; one byte at a time; bodies of 4 KB and 64 KB), a short
+	// pause after each piece, several packets per connection; 4-byte transport error-code frames (-404, -429,
+	// other values) before, between and after the packets, in every order
+	c03GenStreams(g)
 	// special keys; padding of 16 and more bytes (not conformant; model and code must still agree)
 	for _, k := range []string{"z256", "p256"} {
 		g.Emit(fmt.Sprintf("c03.seal %s 0 0 0 0 0 -", k), "seal-edge", "edge=key")
@@ -851,6 +974,164 @@ func c03GenSessions(g *G) {
 			}
 		}
 		emit(steps, "session-random")
+	}
+}
+
+func c03CutsStr(c []int) string {
+	s := make([]string, len(c))
+	for i, v := range c {
+		s[i] = strconv.Itoa(v)
+	}
+	return strings.Join(s, ",")
+}
+
+// c03FrameLen: length of the frame (4-byte length prefix + packet) of a step.
+func c03FrameLen(step string) int {
+	st := c03ParseStep(step)
+	switch {
+	case st.code:
+		return 8
+	case st.enc:
+		return 4 + 24 + 32 + len(st.m.Body) + len(st.pad)
+	}
+	return 4 + 20 + len(st.m.Body)
+}
+
+// c03RandCuts: 1..4 cut points of an n-byte frame, clustered where the receiver's reads begin and end.
+func c03RandCuts(g *G, n int) string {
+	r := g.R
+	seen := map[int]bool{}
+	var cuts []int
+	for k := 1 + r.Intn(4); k > 0; k-- {
+		var c int
+		switch r.Intn(6) {
+		case 0, 1:
+			c = 1 + r.Intn(3) // inside the length prefix
+		case 2:
+			c = 4 // between the prefix and the packet
+		case 3:
+			c = 5 + r.Intn(24) // inside key id / msg_key
+		case 4:
+			c = n - 1 - r.Intn(3)
+		default:
+			c = 1 + r.Intn(n-1)
+		}
+		if c >= 1 && c < n && !seen[c] {
+			seen[c] = true
+			cuts = append(cuts, c)
+		}
+	}
+	if len(cuts) == 0 {
+		cuts = []int{1 + r.Intn(n-1)}
+	}
+	sort.Ints(cuts)
+	return c03CutsStr(cuts)
+}
+
+func c03CodeStep(g *G) string {
+	r := g.R
+	switch r.Intn(8) {
+	case 0:
+		return fmt.Sprintf("c:%d", int32(uint32(r.U64())))
+	case 1:
+		return fmt.Sprintf("c:%d", r.Pick(0, 1, -1, 404, 429, 2147483647, -2147483648))
+	}
+	return fmt.Sprintf("c:%d", r.Pick(-404, -429, -429, -444, -403))
+}
+
+func c03GenStreams(g *G) {
+	r := g.R
+	emit := func(steps []string, tags ...string) {
+		g.Emit("c03.session "+c03KeyTok(g)+" "+strings.Join(steps, " "), append(tags, "session")...)
+	}
+	cut := func(cuts, step string) string { return cuts + "/" + step }
+	encOf := func(l int) string {
+		return fmt.Sprintf("e:%d:%d:%d:%d:%s:%s", c03U64(g), c03U64(g), c03ServerMid(g), c03Seq(g), c03PadFor(g, l), c03BodyTok(g, l))
+	}
+	unenc := func() string { return fmt.Sprintf("u:%d:%s", c03ServerMid(g), c03BodyTok(g, 1+r.Intn(40))) }
+	// -- transport error codes and packets on one transport, fixed orders
+	for _, code := range []int{-404, -429, -444, -403, 404, 0, -1, 2147483647, -2147483648} {
+		c := fmt.Sprintf("c:%d", code)
+		a, b := c03EncStep(g, c03ServerMid(g)), c03EncStep(g, c03ServerMid(g))
+		emit([]string{c, a}, "session-after-error-code")
+		emit([]string{a, c, b}, "session-after-error-code")
+		emit([]string{a, c, a, c03CodeStep(g), c03CodeStep(g), b, unenc(), c}, "session-after-error-code", "session-resent-later")
+		emit([]string{c, unenc(), a}, "session-after-error-code", "session-unencrypted-mixed")
+		if g.Thorough() {
+			emit([]string{c, c, a, b}, "session-after-error-code")
+		}
+	}
+	// -- one packet per connection, then several, every frame cut at one fixed kind of place
+	for rep := 0; rep < g.N(2, 12); rep++ {
+		l := r.Intn(40)
+		a := encOf(l)
+		n := c03FrameLen(a)
+		for _, cs := range [][]int{{1}, {2}, {3}, {4}, {1, 2, 3}, {1, 2, 3, 4}, {5}, {12}, {28}, {29}, {n / 2}, {n - 16}, {n - 1}, {2, n / 2, n - 1}, {4, 12, 28, 44}} {
+			emit([]string{cut(c03CutsStr(cs), a)}, "session-segmented", "segmented-single")
+		}
+		emit([]string{cut("each", a)}, "session-segmented", "segmented-bytewise")
+		b, u := encOf(r.Intn(300)), unenc()
+		emit([]string{cut(c03RandCuts(g, n), a), cut(c03RandCuts(g, c03FrameLen(b)), b), cut(c03RandCuts(g, c03FrameLen(u)), u), cut(c03RandCuts(g, n), a)},
+			"session-segmented", "segmented-several")
+		emit([]string{a, cut(c03RandCuts(g, c03FrameLen(b)), b), a, cut("each", u), b}, "session-segmented", "segmented-several", "segmented-bytewise")
+	}
+	// -- packets longer than one segment: 4 KB in three pieces, around 64 KB in two (and in one: the
+	// network cuts it by itself)
+	for _, l := range []int{4096, 4080 + r.Intn(16), 65536, 65536 - 1 - r.Intn(20)} {
+		a := encOf(l)
+		n := c03FrameLen(a)
+		emit([]string{a, c03EncStep(g, c03ServerMid(g))}, "session-long-packet")
+		emit([]string{cut(c03CutsStr([]int{n / 3, n - n/4}), a), c03EncStep(g, c03ServerMid(g))}, "session-segmented", "session-long-packet")
+		emit([]string{cut(c03CutsStr([]int{n - 1 - r.Intn(16)}), a)}, "session-segmented", "session-long-packet")
+		emit([]string{cut(c03CutsStr([]int{1 + r.Intn(3), 1000 + r.Intn(n-2000)}), a), cut("2", c03CodeStep(g)), cut(c03RandCuts(g, n), a)}, "session-segmented", "session-long-packet", "session-after-error-code")
+	}
+	// -- random walks: new packets, packets sent again, unencrypted messages, error codes; each frame whole or in pieces
+	for i := 0; i < g.N(140, 2000); i++ {
+		n := 2 + r.Intn(7)
+		pCode, pCut := r.Pick(0, 1, 3, 5), r.Pick(0, 2, 5, 8) // out of 10, per walk
+		var steps, bare []string
+		for k := 0; k < n; k++ {
+			var st string
+			var pk []string // the packets so far
+			for _, b := range bare {
+				if !strings.HasPrefix(b, "c:") {
+					pk = append(pk, b)
+				}
+			}
+			switch c := r.Intn(10); {
+			case r.Intn(10) < pCode:
+				st = c03CodeStep(g)
+			case len(pk) > 0 && c < 2:
+				st = pk[len(pk)-1]
+			case len(pk) > 0 && c < 3:
+				st = pk[r.Intn(len(pk))]
+			case len(pk) > 0 && c < 4:
+				st = c03EncStep(g, c03ParseStep(pk[r.Intn(len(pk))]).m.Mid)
+			case c < 5:
+				st = unenc()
+			case c == 5 && r.Intn(4) == 0:
+				st = encOf(600 + r.Intn(3000))
+			default:
+				st = c03EncStep(g, c03ServerMid(g))
+			}
+			bare = append(bare, st)
+			if r.Intn(10) < pCut {
+				if c03FrameLen(st) <= 120 && r.Intn(12) == 0 {
+					st = cut("each", st)
+				} else {
+					st = cut(c03RandCuts(g, c03FrameLen(st)), st)
+				}
+			}
+			steps = append(steps, st)
+		}
+		tags := []string{"session-stream-random"}
+		if pCode > 0 {
+			tags = append(tags, "session-after-error-code")
+		}
+		if pCut > 0 {
+			tags = append(tags, "session-segmented")
+		}
+		emit(steps, tags...)
 	}
 }
 
